@@ -333,6 +333,10 @@ pub fn apply(m: &Menu, s: &Regs, act: Act) -> Option<Regs> {
         ($reg:ident, $call:expr, $in_contract:expr, $what:expr) => {{
             match guarded(|| $call) {
                 Ok(v) => {
+                    if !$in_contract {
+                        // documented: "it panics when you fail to satisfy fuzzy hash constraints"
+                        n.bad = Some(format!("{} accepted out-of-contract arguments and returned {:?}", $what, v));
+                    }
                     n.$reg = v;
                     Some(n)
                 }
@@ -409,6 +413,9 @@ pub fn apply(m: &Menu, s: &Regs, act: Act) -> Option<Regs> {
                         let mut obj = n.$reg;
                         match guarded(|| obj.init_from_internals_raw(*log, &x1, &x2, *l1, *l2)) {
                             Ok(()) => {
+                                if !in_contract {
+                                    n.bad = Some(format!("init_from_internals_raw accepted out-of-contract arguments and left {:?}", obj));
+                                }
                                 n.$reg = obj;
                                 Some(n)
                             }
@@ -645,6 +652,9 @@ pub fn replay(c: &Value) -> Result<(), String> {
         let act = c["sweep_act"].as_str().and_then(act_parse).ok_or("bad sweep action")?;
         return sweep_case(shape as u8, act);
     }
+    if let Some(ty) = c["bs_ctor_type"].as_u64() {
+        return block_size_ctor_case(ty as usize, c["bs"].as_u64().ok_or("bs")? as u32).map(|_| ());
+    }
     if let Some(arg) = c["pa_arg"].as_str() {
         return pa_init_case(&unhex(c["pa_prev"].as_str().unwrap_or("")), &unhex(arg)).map(|_| ());
     }
@@ -779,7 +789,69 @@ fn pa_sweep_args() -> Vec<Vec<u8>> {
     v
 }
 
+/// `new_from_internals(block_size, ..)` over valid and invalid block sizes, all six types.
+fn block_size_ctor_case(ty: usize, bs: u32) -> Result<&'static str, String> {
+    let valid = bs % 3 == 0 && (bs / 3).is_power_of_two() && (bs / 3) <= (1 << 30);
+    macro_rules! one {
+        ($t:ty) => {{
+            match guarded(|| <$t>::new_from_internals(bs, &[1, 2], &[3])) {
+                Ok(h) => {
+                    if !valid {
+                        return Err(format!("{}::new_from_internals({}, ..) accepted an invalid block size and returned {:?}", stringify!($t), bs, h));
+                    }
+                    if !h.is_valid() || h.block_size() != bs {
+                        return Err(format!("{}::new_from_internals({}, ..) returned {:?}", stringify!($t), bs, h));
+                    }
+                    Ok("accepted")
+                }
+                Err(p) => {
+                    if valid {
+                        return Err(format!("{}::new_from_internals({}, ..) panicked: {}", stringify!($t), bs, p));
+                    }
+                    Ok("refused_by_panic")
+                }
+            }
+        }};
+    }
+    match ty {
+        0 => one!(RawFuzzyHash),
+        1 => one!(LongRawFuzzyHash),
+        2 => one!(FuzzyHash),
+        3 => one!(LongFuzzyHash),
+        4 => one!(DualFuzzyHash),
+        _ => one!(LongDualFuzzyHash),
+    }
+}
+
+fn block_size_probes() -> Vec<u32> {
+    let mut v: Vec<u32> = vec![0, 1, 2, 4, 5, 7, 9, 15, 1 << 31, (1 << 31) + 1, u32::MAX, u32::MAX - 1, u32::MAX - 2, 0xC000_0001, 0xBFFF_FFFF];
+    for n in 0..31u32 {
+        let b = 3u32 << n;
+        v.extend([b, b.wrapping_add(1), b - 1, b ^ 1, 1 << n, b | (b >> 1), b.wrapping_mul(3)]);
+    }
+    v.sort();
+    v.dedup();
+    v
+}
+
 fn sweeps(rep: &mut Report) {
+    {
+        let probes = block_size_probes();
+        let acc = par_shards(probes.len(), |i, acc| {
+            for ty in 0..6 {
+                acc.evaluations += 1;
+                acc.nontrivial += 1;
+                match block_size_ctor_case(ty, probes[i]) {
+                    Ok(o) => acc.bump(o),
+                    Err(e) => acc.violation(format!("block size ctor ty={} bs={}", ty, probes[i]), e, json!({"bs_ctor_type": ty, "bs": probes[i]})),
+                }
+            }
+            if i == 3 {
+                acc.sample(json!({"bs_ctor_type": 0, "bs": probes[i]}));
+            }
+        });
+        acc.into_report(rep, "new_from_internals_x_valid_and_invalid_block_sizes");
+    }
     // constructors x byte values
     let acc = par_shards(3 * 256, |i, acc| {
         let shape = (i / 256) as u8;
@@ -1041,7 +1113,7 @@ pub fn run(ctx: &Ctx) -> Report {
     rep.set("exhaustive_scope", "all action sequences up to the depth bound over the stated menu (depth-bounded, not closed)");
     rep.set(
         "rule",
-        "register file with one object per type (4 plain, 2 dual, compare target, position array); menu: parse 10 texts (valid, run-heavy, capacity, long block hash 2, raw-overflowing by one run / by ordinary characters after a run, invalid) into 6 registers; new_from_internals / _near_raw with 15 and _raw / init_from_internals_raw with 10 argument sets each (in-contract, symbol 64 / 255 / 200, length over capacity, non-zero tail, un-normalised data for normalising types, invalid block size / log); normalize_in_place; 24 conversions between registers with previously used destinations; dual init / expand; compare-target init from 4 sources; position array init / clear; generator results.  Depth-1 sweep of the full menu from 4 base states + BFS to the depth bound.  Sweeps: every checked constructor form of the 6 types with EVERY byte value 0..=255 at three positions (middle of block hash 1, block hash 2, last position of a full block hash 2 / first tail byte of the array forms), from a populated register file; position array init_from over every length 0..=70 and lengths around 128 / 256 / 320 / 512 / 65536 and symbols {64,65,127..129,191,192,254,255} at the first / middle / last position, on arrays that already hold a string: in-contract arguments give an array representing the argument, refused ones leave a valid array.  Out-of-contract constructor calls may panic (counted) but must never leave an invalid object.",
+        "register file with one object per type (4 plain, 2 dual, compare target, position array); menu: parse 10 texts (valid, run-heavy, capacity, long block hash 2, raw-overflowing by one run / by ordinary characters after a run, invalid) into 6 registers; new_from_internals / _near_raw with 15 and _raw / init_from_internals_raw with 10 argument sets each (in-contract, symbol 64 / 255 / 200, length over capacity, non-zero tail, un-normalised data for normalising types, invalid block size / log); normalize_in_place; 24 conversions between registers with previously used destinations; dual init / expand; compare-target init from 4 sources; position array init / clear; generator results.  Depth-1 sweep of the full menu from 4 base states + BFS to the depth bound.  Sweeps: every checked constructor form of the 6 types with EVERY byte value 0..=255 at three positions (middle of block hash 1, block hash 2, last position of a full block hash 2 / first tail byte of the array forms), from a populated register file; position array init_from over every length 0..=70 and lengths around 128 / 256 / 320 / 512 / 65536 and symbols {64,65,127..129,191,192,254,255} at the first / middle / last position, on arrays that already hold a string: in-contract arguments give an array representing the argument, refused ones leave a valid array.  Out-of-contract constructor calls must panic (counted; the documentation says so) and must never leave an invalid object.",
     );
     rep
 }
